@@ -12,6 +12,7 @@ import (
 	"sort"
 	"strings"
 
+	"golang.org/x/tools/go/ast/astutil"
 	"golang.org/x/tools/go/packages"
 	"golang.org/x/tools/go/ssa"
 	"golang.org/x/tools/go/ssa/ssautil"
@@ -380,4 +381,60 @@ func (p *Prog) LibSyntax() []*ast.File {
 		out = append(out, p.ByPath[modPath+suffix].Syntax...)
 	}
 	return out
+}
+
+// exprAt renders the source expression whose operator token sits at pos (index / slice / selector / deref /
+// call / binary), used to give obligations short, position-independent descriptors.
+func (p *Prog) exprAt(pos token.Pos) string {
+	if !pos.IsValid() {
+		return ""
+	}
+	for _, pk := range p.All {
+		if pk.Module == nil || pk.Module.Path != modPath {
+			continue
+		}
+		for _, f := range pk.Syntax {
+			if f.Pos() <= pos && pos <= f.End() {
+				path, _ := astutil.PathEnclosingInterval(f, pos, pos)
+				for _, n := range path {
+					switch e := n.(type) {
+					case *ast.IndexExpr:
+						if e.Lbrack == pos {
+							return types.ExprString(e)
+						}
+					case *ast.SliceExpr:
+						if e.Lbrack == pos {
+							return types.ExprString(e)
+						}
+					case *ast.SelectorExpr:
+						if e.Sel.Pos() == pos {
+							return types.ExprString(e)
+						}
+					case *ast.StarExpr:
+						if e.Star == pos {
+							return types.ExprString(e)
+						}
+					case *ast.CallExpr:
+						if e.Lparen == pos {
+							return types.ExprString(e)
+						}
+					case *ast.BinaryExpr:
+						if e.OpPos == pos {
+							return types.ExprString(e)
+						}
+					case *ast.TypeAssertExpr:
+						if e.Lparen == pos {
+							return types.ExprString(e)
+						}
+					case *ast.RangeStmt:
+						if e.For == pos || e.TokPos == pos {
+							return "range " + types.ExprString(e.X)
+						}
+					}
+				}
+				return ""
+			}
+		}
+	}
+	return ""
 }
